@@ -439,7 +439,7 @@ def evalFrom (env : Env N) (data : Row N) (sc : Scope) : From N → R (List (Val
     let p ← prepare env data sc q
     let v ← p.run p.frm
     let rows ← asArray v
-    pure (processAlias rows alias, false, "")
+    pure (processAlias rows alias, false, alias)
   | .join jt l r on => do
     let (lrows, _, lident) ← evalFrom env data sc l
     let (rrows, _, rident) ← evalFrom env data sc r
